@@ -1,7 +1,7 @@
 (* C14 property theorems: ONLY statements closed by `exact`, each followed by Print Assumptions;
    plus non-vacuity Examples.  Model: C14_Model.v (transcription of dune/common/std/*.hh), spec: C14_Spec.v. *)
 From Coq Require Import List ZArith Bool Permutation.
-From DuneV Require Import C14_Model C14_Spec C14_Proofs C14_Proofs_Access C14_Proofs_Perm.
+From DuneV Require Import C14_Params C14_Model C14_Spec C14_Proofs C14_Proofs_Access C14_Proofs_Perm C14_Proofs_Deep.
 Import ListNotations.
 Local Open Scope Z_scope.
 
@@ -264,6 +264,208 @@ Theorem C14_stride_exhaustive_empty :
 Proof. exact c14_stride_exhaustive_empty. Qed.
 Print Assumptions C14_stride_exhaustive_empty.
 
+(* ======================= deepening round: facts the code establishes itself, sizes, machine integers, constructors,
+   conversions, operator==, span extras ======================= *)
+(* --- layout_stride::mapping(const M&) of a left/right/stride mapping is well formed (one non-negative stride per dimension): established by the code, not assumed *)
+Theorem C14_canonical_wf : forall m, c14_wf m -> c14_nonneg (c14_ext m) -> c14_wf (c14_to_stride m).
+Proof. exact (@c14_to_stride_wf). Qed.
+Print Assumptions C14_canonical_wf.
+
+(* --- ... and satisfies the uniqueness (chain) condition, for ANY extents: the hypothesis of C14_injective holds for every converted left/right mapping *)
+Theorem C14_canonical_unique : forall m, c14_lay m <> C14_Stride -> c14_unique (c14_to_stride m).
+Proof. exact (@c14_to_stride_unique). Qed.
+Print Assumptions C14_canonical_unique.
+
+(* --- every mapping of any layout is the dot product of the tuple with its own stride(r) values *)
+Theorem C14_map_is_dot : forall m idx, c14_wf m -> length idx = length (c14_ext m) ->
+  c14_map m idx = c14_dot idx (c14_strides_of m).
+Proof. exact (@c14_map_as_dot). Qed.
+Print Assumptions C14_map_is_dot.
+
+(* --- converting to layout_stride keeps required_span_size (also with zero extents and rank 0) *)
+Theorem C14_canonical_span : forall m, c14_wf m -> c14_nonneg (c14_ext m) ->
+  c14_required_span_size (c14_to_stride m) = c14_required_span_size m.
+Proof. exact (@c14_to_stride_span). Qed.
+Print Assumptions C14_canonical_span.
+
+(* --- is_exhaustive() of the strided image of a left/right mapping is true on a non-empty index space *)
+Theorem C14_canonical_exhaustive : forall m, c14_lay m <> C14_Stride -> c14_nonneg (c14_ext m) ->
+  0 < c14_prod (c14_ext m) -> c14_is_exhaustive (c14_to_stride m) = true.
+Proof. exact (@c14_to_stride_exhaustive). Qed.
+Print Assumptions C14_canonical_exhaustive.
+
+(* --- is_exhaustive() = true (constant answer re-read from the headers for left/right, computed for stride) implies that the offsets fill [0, required_span_size) *)
+Theorem C14_is_exhaustive_sound : forall m, c14_wf m -> c14_nonneg (c14_ext m) ->
+  (forall i j, c14_valid i (c14_ext m) -> c14_valid j (c14_ext m) -> c14_map m i = c14_map m j -> i = j) ->
+  c14_is_exhaustive m = true ->
+  forall k, 0 <= k < c14_required_span_size m -> exists idx, c14_valid idx (c14_ext m) /\ c14_map m idx = k.
+Proof. exact (@c14_is_exhaustive_sound). Qed.
+Print Assumptions C14_is_exhaustive_sound.
+
+(* --- size() (product of the extents) is the number of valid index tuples *)
+Theorem C14_size_counts_tuples : forall E, c14_nonneg E -> c14_product E = Z.of_nat (length (c14_tuples E)).
+Proof. exact (@c14_size_counts_tuples). Qed.
+Print Assumptions C14_size_counts_tuples.
+
+(* --- empty() (size() == 0) holds exactly when there is no valid tuple *)
+Theorem C14_empty_iff : forall E, c14_nonneg E -> (c14_product E = 0 <-> forall idx, ~ c14_valid idx E).
+Proof. exact (@c14_empty_iff). Qed.
+Print Assumptions C14_empty_iff.
+
+(* --- index_type(v) is the identity on representable values *)
+Theorem C14_wrap_fits : forall bits sg v, 0 < bits -> c14_fits bits sg v = true -> c14_wrap bits sg v = v.
+Proof. exact (@c14_wrap_fits). Qed.
+Print Assumptions C14_wrap_fits.
+
+(* --- if the span size fits index_type, every intermediate of the layout_right loop fits *)
+Theorem C14_fits_trace_right : forall bits sg idx E, 0 < bits -> c14_valid idx E -> c14_fits bits sg (c14_product E) = true ->
+  Forall (fun x => c14_fits bits sg x = true) (c14_map_right_trace E idx).
+Proof. exact (@c14_fits_trace_right). Qed.
+Print Assumptions C14_fits_trace_right.
+
+(* --- ... and of the layout_left loop *)
+Theorem C14_fits_trace_left : forall bits sg idx E, 0 < bits -> c14_valid idx E -> c14_fits bits sg (c14_product E) = true ->
+  Forall (fun x => c14_fits bits sg x = true) (c14_map_left_trace E idx).
+Proof. exact (@c14_fits_trace_left). Qed.
+Print Assumptions C14_fits_trace_left.
+
+(* --- stride(r) of left/right on a non-empty index space lies in [1, span size] (the stride loops do not overflow either) *)
+Theorem C14_stride_bounds : forall idx E r, c14_valid idx E ->
+  1 <= c14_stride_right E r <= c14_product E /\ 1 <= c14_stride_left E r <= c14_product E.
+Proof. exact (@c14_stride_bounds). Qed.
+Print Assumptions C14_stride_bounds.
+
+(* --- operator== of extents: true exactly for equal rank and extents *)
+Theorem C14_extents_eq_iff : forall a b, c14_extents_eqb a b = true <-> a = b.
+Proof. exact (@c14_extents_eqb_iff). Qed.
+Print Assumptions C14_extents_eq_iff.
+
+(* --- operator== of mappings (also across layouts, layout_stride == layout_left/right): equal mappings address every tuple identically *)
+Theorem C14_mapping_eq_sound : forall a b, c14_wf a -> c14_wf b -> c14_mapping_eqb_cross a b = true ->
+  c14_ext a = c14_ext b /\ forall idx, length idx = length (c14_ext a) -> c14_map a idx = c14_map b idx.
+Proof. exact (@c14_mapping_eq_sound). Qed.
+Print Assumptions C14_mapping_eq_sound.
+
+(* --- mdspan constructors from extents values (all / only the dynamic ones): intended extents, given layout and data handle *)
+Theorem C14_mdspan_of_extents : forall l p vals h,
+  (c14_spec_compatible p vals -> c14_ext (snd (c14_mdspan_of_extents l p vals h)) = vals) /\
+  (length vals = c14_rank_dynamic p -> c14_ext (snd (c14_mdspan_of_extents l p vals h)) = c14_spec_fill p vals) /\
+  c14_lay (snd (c14_mdspan_of_extents l p vals h)) = l /\ fst (c14_mdspan_of_extents l p vals h) = h.
+Proof. exact (@c14_mdspan_of_extents_ok). Qed.
+Print Assumptions C14_mdspan_of_extents.
+
+(* --- mdspan converting constructor: same data handle, every tuple designates the same element *)
+Theorem C14_view_convert : forall l x x' idx, c14_wf (snd x) -> length idx = length (c14_ext (snd x)) ->
+  c14_view_convert l x = Some x' ->
+  c14_view_offset x' idx = c14_view_offset x idx /\ c14_ext (snd x') = c14_ext (snd x).
+Proof. exact (@c14_view_convert_ok). Qed.
+Print Assumptions C14_view_convert.
+
+(* --- mdarray access stays inside the container whenever it holds required_span_size elements *)
+Theorem C14_array_access : forall (T : Type) (x : c14_array T) idx, c14_wf (snd x) -> c14_valid idx (c14_ext (snd x)) ->
+    c14_required_span_size (snd x) <= Z.of_nat (length (fst x)) ->
+    0 <= c14_map (snd x) idx < Z.of_nat (length (fst x)) /\ exists v, c14_array_get x idx = Some v.
+Proof. exact (@c14_array_access). Qed.
+Print Assumptions C14_array_access.
+
+(* --- mdarray(extents|mapping, value): every element is the value, container sized by required_span_size *)
+Theorem C14_mdarray_fill : forall (T : Type) m (v : T) idx, c14_wf m -> c14_valid idx (c14_ext m) -> 0 <= c14_required_span_size m ->
+    c14_array_get (c14_mdarray_fill m v) idx = Some v /\
+    Z.of_nat (length (fst (c14_mdarray_fill m v))) = c14_required_span_size m.
+Proof. exact (@c14_mdarray_fill_ok). Qed.
+Print Assumptions C14_mdarray_fill.
+
+(* --- a write through operator[] of an mdarray changes exactly the designated element *)
+Theorem C14_array_set_get : forall (T : Type) (x : c14_array T) idx v, c14_wf (snd x) -> c14_unique (snd x) ->
+    c14_valid idx (c14_ext (snd x)) -> c14_required_span_size (snd x) <= Z.of_nat (length (fst x)) ->
+    exists x', c14_array_set x idx v = Some x' /\ snd x' = snd x /\ length (fst x') = length (fst x) /\
+      c14_array_get x' idx = Some v /\
+      forall j, c14_valid j (c14_ext (snd x)) -> j <> idx -> c14_array_get x' j = c14_array_get x j.
+Proof. exact (@c14_array_set_get). Qed.
+Print Assumptions C14_array_set_get.
+
+(* --- to_mdspan(): reads the array's own elements; a write through the view is a write to the array *)
+Theorem C14_to_mdspan_alias : forall (T : Type) (x : c14_array T) idx,
+    c14_mdspan_get (fst (c14_to_mdspan x)) (fst (snd (c14_to_mdspan x))) (snd (snd (c14_to_mdspan x))) idx = c14_array_get x idx /\
+    snd (snd (c14_to_mdspan x)) = snd x /\
+    forall v, c14_mdspan_set (fst (c14_to_mdspan x)) 0 (snd x) idx v
+              = match c14_array_set x idx v with Some x' => Some (fst x') | None => None end.
+Proof. exact (@c14_to_mdspan_alias). Qed.
+Print Assumptions C14_to_mdspan_alias.
+
+(* --- converting constructor between mdarrays: same container, equal elements *)
+Theorem C14_mdarray_convert : forall (T : Type) l (x x' : c14_array T) idx, c14_wf (snd x) -> length idx = length (c14_ext (snd x)) ->
+    c14_mdarray_convert l x = Some x' ->
+    c14_array_get x' idx = c14_array_get x idx /\ c14_ext (snd x') = c14_ext (snd x) /\ fst x' = fst x.
+Proof. exact (@c14_mdarray_convert_ok). Qed.
+Print Assumptions C14_mdarray_convert.
+
+(* --- mdarray(const mdspan&) with the read hypothesis replaced by the size of the view's storage *)
+Theorem C14_mdarray_from_mdspan_sized : forall (T : Type) (dflt : T) l store base msrc,
+    l <> C14_Stride -> c14_wf msrc -> c14_nonneg (c14_ext msrc) ->
+    0 <= base -> base + c14_required_span_size msrc <= Z.of_nat (length store) ->
+    forall mdst, c14_relayout l msrc = Some mdst ->
+    exists cont, c14_mdarray_from_mdspan dflt l store base msrc = Some (cont, mdst) /\
+      Z.of_nat (length cont) = c14_required_span_size mdst /\
+      forall t, c14_valid t (c14_ext msrc) -> c14_mdarray_get cont mdst t = c14_mdspan_get store base msrc t.
+Proof. exact (@c14_mdarray_from_mdspan_sized). Qed.
+Print Assumptions C14_mdarray_from_mdspan_sized.
+
+(* --- a mapping on converted extents addresses exactly as the mapping on the source extents *)
+Theorem C14_convert_extents_mapping : forall l St p' p dyn idx, c14_spec_compatible p' (c14_extents_list p dyn) ->
+  c14_map (C14_Mapping l (c14_extents_list p' (c14_extents_convert p' p dyn)) St) idx =
+  c14_map (C14_Mapping l (c14_extents_list p dyn) St) idx /\
+  c14_required_span_size (C14_Mapping l (c14_extents_list p' (c14_extents_convert p' p dyn)) St) =
+  c14_required_span_size (C14_Mapping l (c14_extents_list p dyn) St).
+Proof. exact (@c14_convert_extents_mapping). Qed.
+Print Assumptions C14_convert_extents_mapping.
+
+(* --- the compile-time extent of subspan<O,C>() (subspan_extent) equals the run-time size of the result *)
+Theorem C14_subspan_static_extent : forall s ext o c s' n, c14_span_subspan s o c = Some s' ->
+  (forall e, ext = Some e -> e = c14_sp_len s) -> c14_subspan_extent ext o c = Some n -> n = c14_sp_len s'.
+Proof. exact (@c14_subspan_static_extent). Qed.
+Print Assumptions C14_subspan_static_extent.
+
+(* --- begin()..end() visits exactly the size() elements s[0], s[1], ... *)
+Theorem C14_span_iteration : forall s, 0 <= c14_sp_len s ->
+  Z.of_nat (length (c14_span_elems s)) = c14_sp_len s /\
+  forall n, (Z.of_nat n < c14_sp_len s) -> nth n (c14_span_elems s) 0 = c14_span_index s (Z.of_nat n).
+Proof. exact (@c14_span_iteration). Qed.
+Print Assumptions C14_span_iteration.
+
+(* --- front()/back() are s[0] and s[size()-1] *)
+Theorem C14_span_front_back : forall s, 0 < c14_sp_len s ->
+  c14_span_front s = Some (c14_span_index s 0) /\ c14_span_back s = Some (c14_span_index s (c14_sp_len s - 1)).
+Proof. exact (@c14_span_front_back). Qed.
+Print Assumptions C14_span_front_back.
+
+(* --- the constant answers of is_unique/is_strided/is_always_* and the defaults, re-read from the headers (C14_Params.v), are the ones the theorems justify *)
+Theorem C14_flags_justified : (forall l, c14_is_unique l = true) /\ (forall l, c14_is_strided l = true) /\ (forall l, c14_is_always_unique l = true) /\
+  (forall l, c14_is_always_strided l = true) /\
+  (forall l, c14_is_always_exhaustive l = match l with C14_Stride => false | _ => true end) /\
+  c14_param_dynamic_extent_is_sizemax = true /\ c14_param_mdspan_default_layout = 1%nat /\ c14_param_mdarray_default_layout = 1%nat.
+Proof. exact (@c14_flags_justified). Qed.
+Print Assumptions C14_flags_justified.
+
+(* --- REFINEMENT to machine arithmetic: the layout_right loop computed entirely in a bits-wide signed/unsigned index_type (every + and * wrapped) equals the exact value whenever the span size is representable *)
+Theorem C14_machine_right : forall bits sg idx E, 0 < bits -> c14_valid idx E -> c14_fits bits sg (c14_product E) = true ->
+  c14_map_right_w bits sg E idx = c14_map_right E idx.
+Proof. exact c14_machine_right. Qed.
+Print Assumptions C14_machine_right.
+
+(* --- ... the layout_left loop *)
+Theorem C14_machine_left : forall bits sg idx E, 0 < bits -> c14_valid idx E -> c14_fits bits sg (c14_product E) = true ->
+  c14_map_left_w bits sg E idx = c14_map_left E idx.
+Proof. exact c14_machine_left. Qed.
+Print Assumptions C14_machine_left.
+
+(* --- ... and the layout_stride fold (strides >= 0): every product and partial sum is bounded by required_span_size *)
+Theorem C14_machine_stride : forall bits sg idx E St, 0 < bits -> c14_valid idx E -> Forall (fun s => 0 <= s) St ->
+  c14_fits bits sg (c14_span_size_stride E St) = true ->
+  c14_map_stride_w bits sg St idx = c14_map_stride St idx.
+Proof. exact c14_machine_stride. Qed.
+Print Assumptions C14_machine_stride.
+
 (* --- non-vacuity *)
 Example C14_ex_valid : c14_valid [1; 2; 3] [2; 3; 4] /\ c14_map_right [2; 3; 4] [1; 2; 3] = 23 /\ c14_map_left [2; 3; 4] [1; 2; 3] = 23.
 Proof. exact c14_ex_valid. Qed.
@@ -291,3 +493,12 @@ Example C14_ex_from_mdspan_acc :   (* interleaved buffer, accessor 2*i+1 *)
     (C14_Mapping C14_Right [2; 3] [])
   = Some ([11; 13; 15; 17; 19; 21], C14_Mapping C14_Right [2; 3] []).
 Proof. vm_compute. reflexivity. Qed.
+Example C14_ex_deep : c14_is_exhaustive (c14_to_stride (C14_Mapping C14_Left [2; 3; 4] [])) = true /\
+  c14_strides_of (c14_to_stride (C14_Mapping C14_Left [2; 3; 4] [])) = [1; 2; 6] /\
+  c14_mapping_eqb_cross (c14_to_stride (C14_Mapping C14_Right [2; 3] [])) (C14_Mapping C14_Right [2; 3] []) = true /\
+  c14_wrap 16 true 40000 = -25536 /\ c14_wrap 16 true 123 = 123 /\ c14_fits 16 true 32767 = true /\
+  c14_subspan_extent (Some 7) 2 None = Some 5 /\ c14_span_elems (C14_Span 3 4) = [3; 4; 5; 6].
+Proof. exact c14_ex_deep. Qed.
+Example C14_ex_machine : c14_map_right_w 16 true [181; 181] [180; 180] = 32760 /\ c14_fits 16 true (c14_product [181; 181]) = true /\
+  c14_map_right_w 16 true [182; 182] [181; 181] <> c14_map_right [182; 182] [181; 181].   (* 33123 wraps: the guard is needed *)
+Proof. split; [vm_compute; reflexivity|split; [vm_compute; reflexivity|vm_compute; discriminate]]. Qed.
